@@ -1,5 +1,5 @@
 use proc_macro2::token_stream::IntoIter as TokenIter;
-use proc_macro2::{Ident, Literal, TokenStream, TokenTree};
+use proc_macro2::{Ident, Literal, Spacing, TokenStream, TokenTree};
 use quote::quote;
 
 use crate::util::{expect_punct, is_punct};
@@ -63,6 +63,22 @@ impl AttributeParser {
         expect_punct(self.inner.next(), ',')
     }
 
+    /// Is `tt` the `=` of `name = value`? The spacing of the punct tells it from `==` and `=>`;
+    /// a `=` directly followed by any other punctuation (`callback=|lex| ..`, `extras=&'a T`)
+    /// still assigns.
+    fn is_assign(&self, tt: &TokenTree) -> bool {
+        match tt {
+            TokenTree::Punct(punct) if punct.as_char() == '=' => {
+                punct.spacing() == Spacing::Alone
+                    || !matches!(
+                        self.inner.clone().next(),
+                        Some(TokenTree::Punct(next)) if matches!(next.as_char(), '=' | '>')
+                    )
+            }
+            _ => false,
+        }
+    }
+
     fn collect_tail<T>(&mut self, first: T) -> TokenStream
     where
         T: Into<TokenStream>,
@@ -105,7 +121,7 @@ impl AttributeParser {
     }
 
     fn parse_keyword(&mut self, keyword: Ident, name: Ident) -> Nested {
-        let error = expect_punct(self.next_tt(), '=');
+        let error = self.next_tt().filter(|tt| !self.is_assign(tt));
 
         match error {
             Some(error) => {
@@ -140,7 +156,7 @@ impl Iterator for AttributeParser {
         };
 
         match self.next_tt() {
-            Some(tt) if is_punct(&tt, '=') => Some(self.parse_assign(name)),
+            Some(tt) if self.is_assign(&tt) => Some(self.parse_assign(name)),
             Some(TokenTree::Literal(lit)) => Some(self.parse_literal(name, lit)),
             Some(TokenTree::Group(group)) => Some(self.parse_group(name, group.stream())),
             Some(TokenTree::Ident(next)) => Some(self.parse_keyword(name, next)),
